@@ -75,6 +75,77 @@ def hasInexactPad (r : RustAgg) : Bool :=
     | .padding _, some (.opaqueA a s) => decide (s % a ≠ 0)
     | _, _ => false
 
+/-- rustc rejects `packed` together with `align` (E0587) -/
+def packedAlignConflict (r : RustAgg) : Bool := r.packed.isSome && r.align.isSome
+
+/-- rustc rejects a `packed` type that contains a `repr(align)` type (E0588) -/
+def packedContainsAligned (r : RustAgg) : Bool := r.packed.isSome && r.fields.any (·.containsAlign)
+
+/-- `repr(packed)` was dropped (explicit alignment requested and `already_packed`) although a
+member is more aligned than the record: the Rust type is over-aligned -/
+def packedDropped (c : CAgg) (r : RustAgg) : Bool :=
+  c.isPacked && !c.isOpaque && r.packed.isNone &&
+    (match c.layout with
+     | some l => r.fields.any (fun f => decide (f.align > l.align))
+     | none => false)
+
+/-- `repr(C, packed(N))`, N > 1, cannot place a member where the C compiler put it
+(`__attribute__((packed))` combined with `aligned(N)`) -/
+def packedNMisplaces (c : CAgg) (r : RustAgg) : Bool :=
+  match r.packed with
+  | some n => decide (n > 1) && c.fields.any (fun f => match f with
+      | .data ty (some off) => (match ty.layout with
+          | some l => decide ((off / 8) % (min (max l.align 1) n) ≠ 0)
+          | none => false)
+      | _ => false)
+  | none => false
+
+def FName.isPadding : FName → Bool
+  | .padding _ => true
+  | _ => false
+
+/-- `--explicit-padding`: `add_tail_padding` and `pad_struct` both pad the tail (the former does
+not advance `latest_offset`), so the aggregate ends with two padding fields -/
+def doubleTailPad (r : RustAgg) : Bool :=
+  match r.fields.reverse with
+  | a :: b :: _ => a.name.isPadding && b.name.isPadding
+  | _ => false
+
+/-- `--explicit-padding` on a union emitted in wrapper form: tail padding in front of the
+full-size `bindgen_union_field` blob -/
+def padBeforeUnionBlob (r : RustAgg) : Bool :=
+  r.fields.any (·.name.isPadding) && r.fields.any (fun f => f.name == .unionField)
+
+/-- a bit-field allocation unit of a union that is shorter than one of its bit-fields
+(`bitfields_to_allocation_units` keeps the extent of the *last* bit-field, and in a union every
+bit-field starts at offset 0) -/
+def unionUnitShort (c : CAgg) : Bool :=
+  c.isUnion && c.fields.any fun f => match f with
+    | .unit _ l e => decide (8 * l.size < e)
+    | _ => false
+
+/-- the emitted struct is not packed, yet the C compiler placed a member at an offset that is not
+a multiple of the member type's alignment (`#pragma pack` / enclosing `packed` that the
+field-alignment heuristic of `is_packed` does not detect because the record itself carries a
+larger `aligned(N)`): no `repr(C)` struct without `packed` can reproduce that -/
+def unpackedMisalignedMember (c : CAgg) (r : RustAgg) : Bool :=
+  r.packed.isNone && !r.isUnion && !c.isUnion && c.fields.any fun f => match f with
+    | .data ty (some off) => (match ty.layout with
+        | some l => decide ((off / 8) % (max l.align 1) ≠ 0)
+        | none => false)
+    | _ => false
+
+def regionNames (c : CAgg) (r : RustAgg) : List String :=
+  (if unpackedMisalignedMember c r then ["unpacked_misaligned_member"] else []) ++
+  (if doubleTailPad r then ["explicit_padding_double_tail"] else []) ++
+  (if padBeforeUnionBlob r then ["explicit_padding_union_wrapper"] else []) ++
+  (if unionUnitShort c then ["union_bitfield_unit_short"] else []) ++
+  (if hasInexactPad r then ["pad_blob_inexact"] else []) ++
+  (if packedAlignConflict r then ["packed_align_conflict"] else []) ++
+  (if packedContainsAligned r then ["packed_contains_aligned"] else []) ++
+  (if packedDropped c r then ["packed_dropped"] else []) ++
+  (if packedNMisplaces c r then ["packedN_misplaces"] else [])
+
 /-! witnesses -/
 
 /-- `struct { char c; long x __attribute__((aligned(16))); }` -/
@@ -96,5 +167,60 @@ def witnessPlain : CAgg :=
                .data { layout := some { size := 4, align := 4 } } (some 32),
                .data { layout := some { size := 2, align := 2 } } (some 64),
                .data { layout := some { size := 8, align := 8 } } (some 128)] }
+
+/-- `struct __attribute__((packed, aligned(8))) PA { char a; int b; };` -/
+def witnessPackedAlign : CAgg :=
+  { layout := some { size := 8, align := 8 }, packedAttr := true,
+    fields := [.data { layout := some { size := 1, align := 1 } } (some 0),
+               .data { layout := some { size := 4, align := 4 } } (some 8)] }
+
+/-- `struct __attribute__((aligned(16))) AL { int x; }; struct __attribute__((packed)) PC { char c; struct AL a; };` -/
+def witnessPackedContains : CAgg :=
+  { layout := some { size := 17, align := 1 }, packedAttr := true,
+    fields := [.data { layout := some { size := 1, align := 1 } } (some 0),
+               .data { layout := some { size := 16, align := 16 }, containsAlign := true } (some 8)] }
+
+/-- `struct __attribute__((packed, aligned(2))) PD2 { long double x; };` -/
+def witnessPackedDropped : CAgg :=
+  { layout := some { size := 16, align := 2 }, packedAttr := true,
+    fields := [.data { layout := some { size := 16, align := 16 } } (some 0)] }
+
+/-- `struct __attribute__((packed, aligned(4))) PN { char a; long b; };` -/
+def witnessPackedN : CAgg :=
+  { layout := some { size := 12, align := 4 }, packedAttr := true,
+    fields := [.data { layout := some { size := 1, align := 1 } } (some 0),
+               .data { layout := some { size := 8, align := 8 } } (some 8)] }
+
+/-- `union __attribute__((packed)) UB { long a : 42; int b : 3; };` -/
+def witnessUnionUnitShort : CAgg :=
+  { isUnion := true, layout := some { size := 6, align := 1 }, packedAttr := true,
+    fields := [.unit 1 { size := 1, align := 1 } 42] }
+
+/-- `struct DT { int a : 3; long b; char c : 2; };` with `--explicit-padding` -/
+def witnessDoubleTail : CAgg :=
+  { layout := some { size := 24, align := 8 },
+    fields := [.unit 1 { size := 1, align := 1 } 3,
+               .data { layout := some { size := 8, align := 8 } } (some 64),
+               .unit 2 { size := 1, align := 1 } 2] }
+
+/-- `union UW { int z[0]; char c[5]; int a; };` with `--explicit-padding` -/
+def witnessUnionWrapper : CAgg :=
+  { isUnion := true, layout := some { size := 8, align := 4 }, allCanCopy := false,
+    fields := [.data { layout := some { size := 0, align := 4 }, array := some (some { size := 4, align := 4 }, 0) } (some 0),
+               .data { layout := some { size := 5, align := 1 }, array := some (some { size := 1, align := 1 }, 5) } (some 0),
+               .data { layout := some { size := 4, align := 4 } } (some 0)] }
+
+/-- `union UF { int z[0]; long a; char b : 3; };` with `--explicit-padding` -/
+def witnessTailUnderflow : CAgg :=
+  { isUnion := true, layout := some { size := 8, align := 8 }, allCanCopy := false,
+    fields := [.data { layout := some { size := 0, align := 4 }, array := some (some { size := 4, align := 4 }, 0) } (some 0),
+               .data { layout := some { size := 8, align := 8 } } (some 0),
+               .unit 1 { size := 1, align := 1 } 3] }
+
+/-- `#pragma pack(2)` around `struct __attribute__((aligned(8))) UM { char a; long b; };` -/
+def witnessMisaligned : CAgg :=
+  { layout := some { size := 16, align := 8 },
+    fields := [.data { layout := some { size := 1, align := 1 } } (some 0),
+               .data { layout := some { size := 8, align := 8 } } (some 16)] }
 
 end BindgenModel.CompCodegen
